@@ -308,11 +308,17 @@ func runC19(c *Ctx) error {
 			var cont message.ConfigurationAttributeContainer
 			prior := L()
 			for k := rng.Intn(4); k > 0; k-- {
-				t, v := uint16(rng.Intn(65536)), genBytes(rng, 0, 20)
+				t, v := rng.U16e(), genBytes(rng, 0, 20)
+				if rng.Chance(1, 2) { // the sizes configuration attributes really have: addresses, address + prefix
+					v = rng.BytesE(rng.Pick([]int{4, 16, 16, 8, 17}))
+				}
 				cont.BuildConfigurationAttribute(t, v)
 				prior.Add(L(A("a"), Nn(uint64(t)), Hx(v)))
 			}
-			t, v := uint16(rng.Intn(65536)), genBytes(rng, 0, 300)
+			t, v := rng.U16e(), genBytes(rng, 0, 300)
+			if rng.Chance(1, 2) {
+				v = rng.BytesE(rng.Pick([]int{4, 16, 16, 8, 17}))
+			}
 			cont.BuildConfigurationAttribute(t, v)
 			got := L()
 			for _, a := range cont {
